@@ -367,15 +367,19 @@ func (s *Service) retrieveExistingAndAssignKeys(
 			Exec(ctx, tx); err != nil {
 			return nil, errors.Skip(err, query.ErrNotFound)
 		}
+		// Several existing channels can carry the same name; a slot of the request is
+		// replaced, and its key no longer needed, only once.
+		replaced := make(set.Set[int], len(existing))
 		for _, e := range existing {
 			idx := lo.IndexOf(names, e.Name)
 			if idx < 0 {
 				continue
 			}
 			(*channels)[idx] = e
-			if incCounterBy != 0 {
+			if !replaced.Contains(idx) && incCounterBy != 0 {
 				incCounterBy--
 			}
+			replaced.Add(idx)
 		}
 	}
 	nextCounterValue, err := counter.add(ctx, incCounterBy)
